@@ -69,6 +69,7 @@ package rfc8628
 //@ func (*DeviceCodeTokenEndpointHandler).canIssueRefreshToken
 //@   requires c != nil
 //@   ensures [C05.refresh-issuance-rule] result <==> ((len(c.Config.GetRefreshTokenScopes(ctx)) == 0 || requester.GetGrantedScopes().HasOneOf(c.Config.GetRefreshTokenScopes(ctx))) && requester.GetClient().GetGrantTypes().Has("refresh_token"))
+//@   ensures [C16.refresh-issuance-rule] result <==> ((len(c.Config.GetRefreshTokenScopes(ctx)) == 0 || requester.GetGrantedScopes().HasOneOf(c.Config.GetRefreshTokenScopes(ctx))) && requester.GetClient().GetGrantTypes().Has("refresh_token"))
 
 //@ func (DeviceCodeTokenEndpointHandler).validateGrantTypes
 //@   ensures [C16.grant-type-needed] err == nil <==> requester.GetClient().GetGrantTypes().Has("urn:ietf:params:oauth:grant-type:device_code")
@@ -111,6 +112,7 @@ package rfc8628
 //@   modifies acc_exists, ref_active, faults, validated_n, rl_blocked, tx_escaped
 //@   ensures [C16.handle-issues-nothing] (forall s string :: acc_exists[s] ==> old(acc_exists[s])) && (forall s string :: ref_active[s] ==> old(ref_active[s])) && dev_live == old(dev_live) && dev_used == old(dev_used)
 //@   ensures [C16.fault-refuses] faults != old(faults) ==> err != nil
+//@   ensures [C18.device-handle-fault-refuses] faults != old(faults) ==> err != nil
 //@   ensures [C06.lookup-then-validate] err == nil ==> validated_n[code] > old(validated_n[code])
 //@   ensures [C16.tokens-only-if-accepted] err == nil ==> dev_live[sig] && dev_req[sig] != nil && dev_req[sig].GetUserCodeState() != fosite.UserCodeUnused && dev_req[sig].GetUserCodeState() != fosite.UserCodeRejected
 //@   ensures [C16.client-bound] err == nil ==> dev_client[sig] == requester.GetClient().GetID()
